@@ -339,3 +339,85 @@ def ob_scrutinee_once(r, tier, seed, **kw):
 _c06_obl3 = obligations
 def obligations():
     return _c06_obl3() + [Ob('O6.3-scrutinee-evaluated-once', 'a match / destructuring let evaluates its scrutinee exactly once, whatever its arms inspect', ob_scrutinee_once, ('quick', 'thorough'), 5, {})]
+
+# ----------------------------------------------------------------------------- O6.4 after ANF every enum arm is still headed by the index of ITS constructor (the Go type switch is built from these tags)
+def ob_anf_arm_tags(r, tier, seed):
+    from props import c09
+    from mirsym.engine import Cell_, Opaque as Opq
+    W = e2.fresh_world(c09.CRATES); tt = W.tt
+    LF = tt.find_adt(['lift', 'LiftFn'], 'compiler'); LFILE = tt.find_adt(['lift', 'LiftFile'], 'compiler'); LA = tt.find_adt(['lift', 'LiftArm'], 'compiler'); LE = tt.find_adt(['lift', 'LiftExpr'], 'compiler')
+    AFN = tt.find_adt(['anf', 'Fn'], 'compiler'); AE = tt.find_adt(['anf', 'AExpr'], 'compiler'); CEX = tt.find_adt(['anf', 'CExpr'], 'compiler'); IE = tt.find_adt(['anf', 'ImmExpr'], 'compiler'); AARM = [a for a in tt.by_name['Arm'] if a.crate == 'compiler' and 'anf' in '::'.join(a.path)][0]
+    CO = tt.find_adt(['common', 'Constructor'], 'compiler'); EC = tt.find_adt(['common', 'EnumConstructor'], 'compiler'); TI = tt.find_adt(['tast', 'TastIdent'], 'compiler'); PR = tt.find_adt(['common', 'Prim'], 'compiler'); TY = tt.find_adt(['tast', 'Ty'], 'compiler')
+    VARIANTS = ['Red', 'Amber', 'Green', 'Off']
+    r.bounds = 'anf::anf_file on `fn main(x: Light) -> int32 { match x { <arms> [default] } }` over enum Light { Red, Amber, Green, Off } (the variants Amber and Off carry one int32 field): the arms are a solver-chosen non-empty subset of the variants in a solver-chosen order (ascending or descending), each arm body the literal 10 * (constructor index + 1), with or without a default'
+    r.assumptions = ['GlobalAnfEnv::from_lift_env receives an opaque environment', 'oracle: in the ANF match every arm whose body is the literal of variant i is headed by ImmTag { index: i }, the arms keep their number and the default is kept iff it was there - the Go backend builds the type switch from exactly these tags']
+    L = lambda n, **kw: Agg(LE.key, LE.vindex(n), [kw[f[0]] for f in LE.variants[LE.vindex(n)].fields])
+    T = lambda n, *f: Agg(TY.key, TY.vindex(n), list(f))
+    ident = lambda n: Agg(TI.key, 0, [mkstr(n)])
+    i32 = lambda: T('TInt32'); ety = lambda: T('TEnum', mkstr('Light'))
+    lit = lambda v: L('EPrim', value=Agg(PR.key, PR.vindex('Int32'), [v]), ty=i32())
+    def entry(ex):
+        present = [ex.choose([(True, True), (True, False)]) for _ in VARIANTS]
+        if not any(present): present[1] = True
+        desc = ex.choose([(True, False), (True, True)]); dflt = ex.choose([(True, False), (True, True)])
+        idxs = [i for i, p_ in enumerate(present) if p_]
+        if desc: idxs = idxs[::-1]
+        arms = []
+        for i in idxs:
+            payload = PyVec([L('EVar', name=mkstr('w%d' % i), ty=i32())]) if VARIANTS[i] in ('Amber', 'Off') else PyVec([])
+            head = L('EConstr', constructor=Agg(CO.key, CO.vindex('Enum'), [Agg(EC.key, 0, [{'type_name': ident('Light'), 'variant': ident(VARIANTS[i]), 'index': i}[f[0]] for f in EC.variants[0].fields])]), args=payload, ty=ety())
+            arms.append(Agg(LA.key, 0, [head, lit(10 * (i + 1))]))
+        m = L('EMatch', expr=mkbox(L('EVar', name=mkstr('x'), ty=ety())), arms=PyVec(arms), default=ms.some(mkbox(lit(99))) if dflt else ms.NONE(), ty=i32())
+        fn = Agg(LF.key, 0, [mkstr('main'), PyVec([Agg('tuple', 0, [mkstr('x'), ety()])]), i32(), m])
+        h = {0: Agg('compiler::env::Gensym', 0, [Cell_(0)])}
+        res = ex.call('anf::anf_file', [Opq('liftenv'), Ref(h, 0), Agg(LFILE.key, 0, [PyVec([fn])])])
+        afn = res.fields[0].fields[0].items[0]; body = dict(zip([x[0] for x in AFN.variants[0].fields], afn.fields))['body']
+        def find_match(a):
+            a = unbox(a) if isinstance(a, Agg) and a.ty == 'Box' else a
+            if a.ty == AE.key:
+                n = AE.variants[a.idx].name; f = dict(zip([x[0] for x in AE.variants[a.idx].fields], a.fields))
+                if n == 'ALet': return find_match(f['value']) or find_match(f['body'])
+                return find_match(f['expr'])
+            if a.ty == CEX.key and CEX.variants[a.idx].name == 'EMatch': return dict(zip([x[0] for x in CEX.variants[a.idx].fields], a.fields))
+            return None
+        mf = find_match(body)
+        if mf is None: return idxs, dflt, None
+        out = []
+        for arm in mf['arms'].items:
+            af = dict(zip([x[0] for x in AARM.variants[0].fields], arm.fields)); lhs = af['lhs']
+            tag = dict(zip([x[0] for x in IE.variants[lhs.idx].fields], lhs.fields)).get('index') if IE.variants[lhs.idx].name == 'ImmTag' else IE.variants[lhs.idx].name
+            b = af['body']; b = unbox(b) if isinstance(b, Agg) and b.ty == 'Box' else b
+            val = None
+            def lit_of(a):
+                a = unbox(a) if isinstance(a, Agg) and a.ty == 'Box' else a
+                if a.ty == AE.key:
+                    f = dict(zip([x[0] for x in AE.variants[a.idx].fields], a.fields)); return lit_of(f.get('expr') if 'expr' in f else f['body'])
+                if a.ty == CEX.key and CEX.variants[a.idx].name == 'CImm': return lit_of(a.fields[0])
+                if a.ty == IE.key and IE.variants[a.idx].name == 'ImmPrim': return a.fields[0].fields[0]
+                return None
+            out.append((tag, lit_of(b)))
+        return idxs, dflt, (out, mf['default'].idx == 1)
+    for n in list(W.methods.get('from_lift_env', [])): W.stubs[n[1]] = lambda ex, a: Opq('anfenv')
+    def ov(f, g):
+        if g.endswith('GlobalAnfEnv::from_lift_env'):
+            def m_from_lift_env(ex, f_, a): return Opq('anfenv')
+            return m_from_lift_env
+        return None
+    W.overrides = [ov]
+    res = e2.explore(r, W, entry, [])
+    for p in res:
+        r.cases += 1
+        if p.kind != 'ok':
+            if not any(f.key == 'panic' for f in r.findings): r.findings.append(Finding('panic', 'anf_file panics on an enum match: %s' % str(p.value)[:200], {}, False, 'not replayed'))
+            continue
+        idxs, dflt, out = p.value; r.nontrivial += 1
+        want = ([(i, 10 * (i + 1)) for i in idxs], dflt)
+        if out is None or (out[0], out[1]) != want:
+            if r.findings: continue
+            r.findings.append(Finding('arm-tag-not-constructor-index', 'match over Light with arms for %s%s: the ANF arms are (tag, body) %s%s; every arm must be headed by the index of its own constructor' % ([VARIANTS[i] for i in idxs], ' and a default' if dflt else '', out[0] if out else None, '' if out is None or out[1] == dflt else ' and the default was %s' % ('added' if out[1] else 'dropped')),
+                                      {'arms': [VARIANTS[i] for i in idxs], 'default': dflt}, True, 'arm heads produced by the real anf::anf_file MIR on that Lift match'))
+        elif len(r.samples) < 3 and len(idxs) > 1: r.samples.append({'arms': [VARIANTS[i] for i in idxs], 'tags': [t for t, _ in out[0]]})
+
+_c06_obl4 = obligations
+def obligations():
+    return _c06_obl4() + [Ob('O6.4-anf-arm-tags', 'after ANF every enum arm is headed by the index of its own constructor', ob_anf_arm_tags, ('quick', 'thorough'), 3, {})]
